@@ -59,12 +59,14 @@ theorem lookup_none_of_nodup_c {β : Type} (a l : List (Bytes × β)) (k : Bytes
 section segIn
 variable (ko : KeyOps) (sha : Bytes → Bytes)
 
-theorem rtI_nwu (s : InScope) (o : Option Tx) (h0 : s.nonWitnessUtxo = none)
+-- `ht`: since `fixes/fix-compress-dup-utxo.diff` a scope that already holds `_txhash` refuses key 00 (the caller
+-- starts from a scope whose `txhash` is the default `none`)
+theorem rtI_nwu (s : InScope) (o : Option Tx) (h0 : s.nonWitnessUtxo = none) (ht : s.txhash = none)
     (hc : ∀ t, o = some t → Tx.parse (Tx.ser t) = some t) :
     InScope.addPairs ko sha 0 s (optKV [0x00] (o.map Tx.ser)) = some { s with nonWitnessUtxo := o } := by
   cases o with
   | none => cases s; simp_all [optKV, InScope.addPairs]
-  | some t => simp [optKV, InScope.addPairs, InScope.addPair, h0, hc t rfl]
+  | some t => simp [optKV, InScope.addPairs, InScope.addPair, h0, ht, hc t rfl]
 
 theorem rtI_wu (s : InScope) (o : Option TxOut) (h0 : s.witnessUtxo = none)
     (hc : ∀ t, o = some t → parseAll TxOut.read (TxOut.ser t) = some t) :
@@ -283,7 +285,7 @@ theorem InScope.canon_roundtrip (ko : KeyOps) (sha : Bytes → Bytes) (ver : Opt
   unfold InScope.pairs
   simp only [List.append_assoc]
   refine (InScope.addPairs_step_c ko sha 0 _ _ _ _
-    (rtI_nwu ko sha _ s.nonWitnessUtxo (by rfl) (fun t h => (hc.nwu t h).1))).trans ?_
+    (rtI_nwu ko sha _ s.nonWitnessUtxo (by rfl) (by rfl) (fun t h => (hc.nwu t h).1))).trans ?_
   refine (InScope.addPairs_step_c ko sha 0 _ _ _ _
     (rtI_wu ko sha _ s.witnessUtxo (by rfl) (fun t h => (hc.wu t h).1))).trans ?_
   refine (InScope.addPairs_step_c ko sha 0 _ _ _ _
